@@ -430,7 +430,10 @@ func kinds() []*kind {
 			{"Amount", true, func(g *gen, c claim, ch string) { m := c.(*ct.MsgSendToFxClaim); m.Amount = g.amountOther(m.Amount) }},
 			{"Sender", true, func(g *gen, c claim, ch string) { m := c.(*ct.MsgSendToFxClaim); m.Sender = g.extOther(ch, m.Sender) }},
 			{"Receiver", true, func(g *gen, c claim, ch string) { m := c.(*ct.MsgSendToFxClaim); m.Receiver = g.bech() }},
-			{"TargetIbc", true, func(g *gen, c claim, ch string) { m := c.(*ct.MsgSendToFxClaim); m.TargetIbc = g.hexTextOther(m.TargetIbc) }},
+			{"TargetIbc", true, func(g *gen, c claim, ch string) {
+				m := c.(*ct.MsgSendToFxClaim)
+				m.TargetIbc = g.hexTextOther(m.TargetIbc)
+			}},
 			{"BridgerAddress", false, func(g *gen, c claim, ch string) { m := c.(*ct.MsgSendToFxClaim); m.BridgerAddress = g.bech() }},
 		}}
 
@@ -787,15 +790,18 @@ type seen struct {
 }
 
 type run struct {
-	out       *hx.Out
-	global    map[string]seen // real hash -> first valid claim with that hash
-	reported  map[string]bool
-	nViol     map[string]int
-	nVariants int
-	facts     map[string]factClaim
-	found     []collision // colliding pairs found by the pure search, replayed on the real keeper
-	corpus    []loadedPair
-	nPure     int // violations recorded by the pure search
+	out        *hx.Out
+	global     map[string]seen // real hash -> first valid claim with that hash
+	reported   map[string]bool
+	nViol      map[string]int
+	nVariants  int
+	facts      map[string]factClaim
+	found      []collision // colliding pairs found by the pure search, replayed on the real keeper
+	corpus     []loadedPair
+	nPure      int // violations recorded by the pure search
+	nOutcome   int // handler-outcome comparisons done on the real keeper
+	nOutcomeBy map[string]int
+	rng        *rand.Rand
 }
 
 // collision: two ValidateBasic-valid claims of one type with different effect and the same real ClaimHash
@@ -944,7 +950,7 @@ func TestC03(t *testing.T) {
 	out := hx.NewOut()
 	rng := rand.New(rand.NewSource(hx.Seed()))
 	g := &gen{rng: rng}
-	r := &run{out: out, global: map[string]seen{}, reported: map[string]bool{}, nViol: map[string]int{}, facts: loadFacts()}
+	r := &run{out: out, global: map[string]seen{}, reported: map[string]bool{}, nViol: map[string]int{}, facts: loadFacts(), rng: rng}
 	ks := kinds()
 	byTag := map[string]*kind{}
 	for _, k := range ks {
